@@ -23,7 +23,7 @@ def ClientRegistry_KickOldConnection : List String := ["mu.Lock", "unindexLocked
 def Client_ConnectClient : List String := ["stateRepo.GetState", "stateRepo.SetState", "stateRepo.AddToNodeClients", "publishClientOnlineEvent"]
 def Client_DisconnectClientIfMatch : List String := ["stateRepo.GetState", "stateRepo.RemoveFromNodeClients", "stateRepo.DeleteState", "publishClientOfflineEvent"]
 def Client_EnsureClientOnline : List String := ["stateRepo.GetState", "state.Touch", "stateRepo.SetState", "stateRepo.SetState", "stateRepo.AddToNodeClients"]
-def CloseConnection : List String := ["delete", "RemoveControlConnection", "RemoveTunnelConnection", "connStateStore.UnregisterConnection"]
+def CloseConnection : List String := ["delete", "streamMgr.RemoveStream", "RemoveControlConnection", "RemoveTunnelConnection", "connStateStore.UnregisterConnection"]
 def CreateConnection : List String := ["streamMgr.CreateStream", "connLock.Lock", "connLock.Unlock", "connLock.Unlock"]
 def FindClientNode_storage : List String := ["storage.Get", "GetConnectionState"]
 def GetConnectionState_storage : List String := ["storage.Get", "storage.Delete"]
